@@ -269,6 +269,27 @@ def subject(case):
                 r['part_exc'] = common.exc_class(e) + ': ' + str(e)[:80]
             if not any(x['path'] == p for x in out['paths']):
                 out['paths'].append(r)
+        # a wildcard step above the name: .../grandparent[k]/*/name selects the same name in every context below
+        if len(a) >= 2:
+            gp = a[:-2]
+            step = path_of(doc, a, ns, False, case['default_ns']).rsplit('/', 1)[-1]
+            p = path_of(doc, gp, ns, True, case['default_ns']) + '/*/' + step
+            sel = [gp + (i, j) for i in range(len(elems[gp])) for j in range(len(elems[gp + (i,)]))
+                   if elems[gp + (i, j)].tag == elems[a].tag]
+            r = {'addr': list(a), 'path': p, 'positions': False, 'same_decl': True}
+            try:
+                part = list(s.iter_decode(res, path=p, namespaces=nsmap, validation='lax', converter=conv))
+                r['part'] = [strip_root_xmlns(x) for x in part if not isinstance(x, Exception)]
+                r['part_errors'] = sorted(str(x.reason)[:60] for x in part if isinstance(x, Exception))
+                r['val_errors'] = sorted(str(e.reason)[:60] for e in s.iter_errors(res, path=p, namespaces=nsmap))
+                r['want'] = [jsonml_sub(full, b) for b in sel]
+                r['want_errors'] = sorted(reason for pth, reason in full_errors
+                                          if any(pth == path_of(doc, b, ns, True, case['default_ns']) or
+                                                 pth.startswith(path_of(doc, b, ns, True, case['default_ns']) + '/') for b in sel))
+            except Exception as e:  # noqa
+                r['part_exc'] = common.exc_class(e) + ': ' + str(e)[:80]
+            if not any(x['path'] == p for x in out['paths']):
+                out['paths'].append(r)
     out['depth'] = {}
     for k in (1, 2, 3, 4):
         try:
